@@ -241,6 +241,26 @@ TBookEdges ==
         THEN Reject(st, "the opening book continues with a move that is not legal", [edges |-> { Ev.edges[j] : j \in wrong }, after |-> st.hist], "stable")
         ELSE Accept(st, "reading the book changed the game", "stable")
 
+\* alpha_beta_search on the current position (C07): res.kind is "ok" (with the move),
+\* "NoAvailableMoves", "DepthTooLow", "panic" or "timeout"
+TSearch ==
+  /\ Ev.ev = "Search" /\ mode = "ok"
+  /\ \E L \in {Legal(Abs(st))} : \E r \in {Ev.res} :
+     IF ~Consistent(Abs(st)) THEN OutOfScope("search asked on an inconsistent position")
+     ELSE IF r.kind \in {"panic", "timeout"} THEN Broken("the search panicked or did not return", [depth |-> Ev.depth, threads |-> Ev.threads, res |-> r])
+     ELSE IF Ev.depth = 0 /\ L = {}
+          THEN (IF r.kind \in {"NoAvailableMoves", "DepthTooLow"} THEN Accept(st, "the search changed the caller's board", "stable")
+                ELSE Reject(st, "a move was returned at depth 0 in a position without legal moves", r, "stable"))
+     ELSE IF Ev.depth = 0
+          THEN (IF r.kind = "DepthTooLow" THEN Accept(st, "the search changed the caller's board", "stable")
+                ELSE Reject(st, "depth 0 must be reported as too low", r, "stable"))
+     ELSE IF L = {}
+          THEN (IF r.kind = "NoAvailableMoves" THEN Accept(st, "the search changed the caller's board", "stable")
+                ELSE Reject(st, "no legal move exists but the search did not report NoAvailableMoves", r, "stable"))
+     ELSE IF r.kind # "ok" THEN Reject(st, "a legal move exists but the search returned an error", r, "stable")
+     ELSE IF MvOf(r.m) \notin L THEN Reject(st, "the move returned by the search is not legal", r, "stable")
+     ELSE Accept(st, "the search changed the caller's board", "stable")
+
 TGEnding ==
   /\ Ev.ev = "GEnding" /\ mode = "ok"
   /\ \E p \in {Abs(st)} : \E L \in {Legal(p)} :
@@ -257,7 +277,7 @@ TGEnding ==
 
 Init == l = 2 /\ st = EmptyEngine /\ keyS = << >> /\ mode = "skip"
 Next == l <= NRec /\ (TReset \/ TSkipped \/ TApply \/ TUndo \/ TToggle \/ TCount \/ TUncount \/ TQuery \/ TEnding
-                       \/ TGReset \/ TGToggle \/ TCoordBatch \/ TCoord \/ TLabelBatch \/ TLabel \/ TEngineMove \/ TGEnding \/ TBookEdges)
+                       \/ TGReset \/ TGToggle \/ TCoordBatch \/ TCoord \/ TLabelBatch \/ TLabel \/ TEngineMove \/ TGEnding \/ TBookEdges \/ TSearch)
 Spec == Init /\ [][Next]_vars
 
 \* the model itself must stay sane (a failure here is a defect of the specification, not of the code)
